@@ -115,15 +115,22 @@ def scan(pan, path, ts, top, hits, counts, cls, kind, L0=0.0):
             ra, rb = first_region(pan, pa), first_region(pan, pb)
             mech = "jump-inside-one-%s" % ra[1] if ra == rb and ra[0] is not None else "jump-between-regions"
             tags = [mech]
+            # the two recorded BS.2127 quad findings are about REAL roots of the pan quadratics; a quad that answers with a pan
+            # value that is not a real root of its own quadratic (harness's own solve) is something else and is not classified
+            bad = quad_pan_value_check(pan, [(ra, pa), (rb, pb)])
             two = two_roots_explanation(pan, [ra, rb], pa, pb, ga, gb, JUMP_ABS + L_SAFETY * Lest * ang)
-            if two is not None:
-                tags.append("quad-two-in-range-roots")
             mis = quad_misalignment(pan, [(ra, pa), (rb, pb)])
-            if mis is not None:
-                tags.append("quad-inconsistent-root-pair")
+            if bad is not None:
+                tags.append("quad-pan-value-not-a-real-root")
+            else:
+                if two is not None:
+                    tags.append("quad-two-in-range-roots")
+                if mis is not None:
+                    tags.append("quad-inconsistent-root-pair")
             _hit(hits, pan, path, t_lo, t_hi, cls, kind, "gain jump between neighbouring directions",
                  {"angle_rad": ang, "max_gain_change": dl, "lipschitz_estimate": Lest, "accepting_region_a": ra, "accepting_region_b": rb,
-                  "gains_a": ga.tolist(), "gains_b": gb.tolist(), "two_in_range_roots": two, "quad_velocity_misaligned": mis}, tags)
+                  "gains_a": ga.tolist(), "gains_b": gb.tolist(), "two_in_range_roots": two, "quad_velocity_misaligned": mis,
+                  "quad_pan_value_not_a_real_root": bad}, tags)
     return calls
 
 
@@ -211,6 +218,28 @@ def quad_misalignment(pan, accepted):
         m = float(np.linalg.norm(np.cross(c05.unit(v), c05.unit(p))))
         if m > 1e-6:
             return {"quad_region": k, "sin_angle_between_velocity_and_direction": m}
+    return None
+
+
+def quad_pan_value_check(pan, accepted):
+    """Does an accepting QuadRegion use a pan value (its own pan_x / pan_y at that direction) that is NOT a real root in
+    [0, 1] (within 1e-6, after clipping) of the corresponding pan quadratic, solved independently here?  Returns a description
+    or None.  (The code under test must only ever use real roots; a value taken from a complex root pair is not one.)"""
+    for (k, kind, _), p in accepted:
+        if kind != "QuadRegion":
+            continue
+        Q = pan.regions[k]
+        pos = np.asarray(Q.positions, dtype=float)
+        sp = pos[[int(o) for o in Q.order]]
+        p = np.array(p, dtype=float)
+        x, y = c05.quad_roots(Q, p)
+        for axis, val, verts in (("x", x, sp), ("y", y, sp[[1, 2, 3, 0]])):
+            if val is None:
+                continue
+            roots = quad_axis_roots(verts, p)
+            if not any(abs(min(max(r, 0.0), 1.0) - val) <= 1e-6 for r in roots):
+                return {"quad_region": k, "axis": axis, "pan_value_used_by_the_code": val, "real_roots_in_range": roots,
+                        "direction": p.tolist()}
     return None
 
 
@@ -302,9 +331,102 @@ def path_stream(pan, rng, n_local, n_circles):
         yield (cls, kind, Path(q, d), [t + shift for t in local_ts(h0)], 2)
 
 
+def guided_paths(pan, q, rng, hits, counts, cls, kind, extra_tag):
+    """Bisection search on short great circles THROUGH the direction q (a direction singled out by a model/code disagreement
+    or by the discriminant predicate): three tangent directions, half-lengths 0.3, 0.03 and 1e-3 rad."""
+    calls = 0
+    q = c05.unit(q)
+    e1, e2 = tangent_basis(q)
+    phi0 = rng.uniform(0, math.pi)
+    for i in range(3):
+        phi = phi0 + i * math.pi / 3
+        d = math.cos(phi) * e1 + math.sin(phi) * e2
+        for h0 in (0.3, 0.03, 1e-3):
+            n0 = len(hits)
+            calls += scan(pan, Path(q, d), local_ts(h0, 32), 3, hits, counts, cls, kind)
+            for h in hits[n0:]:
+                h["tags"].append(extra_tag)
+                h["detail"]["guided_through_direction"] = [float(x) for x in q]
+            if len(hits) > n0:
+                return calls
+    return calls
+
+
+def quad_no_real_root_mask(r, P):
+    """Rows of P (directions) at which one of the two pan quadratics of the QuadRegion r has NO real root: discriminant
+    clearly negative (harness's own coefficients, same formula as quad_axis_roots).  This is the set the `imaginary part
+    < 1e-10` test of pan_axis protects: there the quad must reject."""
+    pos = np.asarray(r.positions, dtype=float)
+    sp = pos[[int(o) for o in r.order]]
+    mask = np.zeros(len(P), dtype=bool)
+    for s in (sp, sp[[1, 2, 3, 0]]):
+        a, b, c, d = s
+        poly = np.array([np.cross(b - a, c - d), np.cross(a, c - d) + np.cross(b - a, d), np.cross(a, d)])
+        co = P.dot(poly.T)
+        A, B, C = co[:, 0], co[:, 1], co[:, 2]
+        scale = np.abs(A) + np.abs(B) + np.abs(C)
+        mask |= (B * B - 4 * A * C) < -1e-12 * scale * scale
+    return mask
+
+
+def disc_guided(pan, rng, hits, counts, n, max_paths=6):
+    """Per QuadRegion: n uniform directions, keep those where a pan quadratic has no real root (so the number kept is
+    proportional to the area of that set), ask the REAL quad for an answer there; every answer is suspicious (not a hit by
+    itself): the bisection search is then run on short paths through such directions, first those for which the quad is the
+    first accepting region of the panner."""
+    calls = 0
+    rs = np.random.RandomState(rng.randrange(1 << 32))
+    P = rs.normal(size=(n, 3))
+    P /= np.linalg.norm(P, axis=1)[:, None]
+    suspicious = []
+    for k, r in enumerate(pan.regions):
+        if c05.region_kind(r) != "QuadRegion":
+            continue
+        idx = np.nonzero(quad_no_real_root_mask(r, P))[0]
+        key = "no-real-root|%s|directions at which a quad's pan quadratic has no real root" % pan.group
+        counts[key] = counts.get(key, 0) + len(idx)
+        for i in idx:
+            calls += 1
+            if c05._call(r.handle, P[i]) is not None:
+                suspicious.append((k, P[i]))
+    key = "no-real-root|%s|... answered by that quad (suspicious; searched for a gain jump)" % pan.group
+    counts[key] = counts.get(key, 0) + len(suspicious)
+    firsts = [s for s in suspicious[:200] if first_region(pan, s[1])[0] == s[0]]
+    rest = [s for s in suspicious if not any(s is f for f in firsts)]
+    for k, d in (firsts + rest)[:max_paths]:
+        calls += guided_paths(pan, d, rng, hits, counts, "quad-no-real-root", "QuadRegion", "guided:quad-answers-without-real-root")
+        if len(hits) > 20:
+            break
+    return calls
+
+
+def _guided_task(args):
+    """Paths through directions on which the model and the real code disagreed (correspondence), on one layout."""
+    lid, name, real, seed, directions, tag = args
+    rng = random.Random(seed)
+    hits, counts = [], {}
+    try:
+        pan = c05.Pan(lid, name, real, nominal=real is None)
+    except Exception:
+        return lid, 0, counts, hits, []
+    calls = 0
+    for region, d in directions:
+        kind = c05.region_kind(pan.regions[region]) if region is not None and region < len(pan.regions) else "-"
+        calls += guided_paths(pan, np.array(d, dtype=float), rng, hits, counts, "model-code-disagreement", kind,
+                              "guided:correspondence-disagreement")
+        if len(hits) > 20:
+            break
+    if tag:
+        for h in hits:
+            if tag not in h["tags"]:
+                h["tags"].append(tag)
+    return lid, calls, counts, hits[:6], []
+
+
 def _task(args):
     lid, name, real, seed, n_local, n_circles = args[:6]
     tag = args[6] if len(args) > 6 else None
+    n_disc = args[7] if len(args) > 7 else 0
     rng = random.Random(seed)
     hits, counts = [], {}
     try:
@@ -316,17 +438,198 @@ def _task(args):
     calls = 0
     samples = []
     hits.extend(c05.structural_hits(pan, counts, tag))
+    rep = cone_report(pan) if real is None else None  # table-level check on the ten nominal layouts
     for cls, kind, path, ts, top in (path_stream(pan, rng, n_local, n_circles) if n_local else []):  # 0 = structure only
         calls += scan(pan, path, ts, top, hits, counts, cls, kind)
         if len(samples) < 2 and cls.startswith("edge"):
             samples.append({"layout": lid, "class": cls, "region": kind, "through": path.q.tolist(), "tangent": path.d.tolist()})
         if len(hits) > 20:
             break
+    if rep is not None:
+        counts.update(rep["counts"])
+        calls += cone_directed(pan, rep, hits, counts)
+    if n_disc and tag is None and len(hits) <= 20:  # layouts inside the quantifier only
+        calls += disc_guided(pan, rng, hits, counts, n_disc)
     if tag:
         for h in hits:
             if tag not in h["tags"]:
                 h["tags"].append(tag)
     return lid, calls, counts, hits[:6], samples
+
+
+# --------------------------------------------------------------------------------------
+# exact check of the combinatorial hypothesis of Earverif.PointSource.panner_continuousOn_triplets_partial
+# (`MeetInSharedFace`: the slack-0 acceptance cones of two regions meet only in a shared vertex / edge) on the REAL
+# configured panner.  Every cone is a polyhedral cone {x : n.x >= 0 for its inward normals n}; all arithmetic is exact
+# integer arithmetic on the binary64 vertex coordinates (each vertex scaled by a power of two).
+
+
+def _ivec(v):
+    """binary64 triple -> integer triple that is an exact positive multiple of it"""
+    fr = [float(x).as_integer_ratio() for x in v]
+    D = max(d for _, d in fr)
+    return tuple(n * (D // d) for n, d in fr)
+
+
+def _icross(a, b):
+    return (a[1] * b[2] - a[2] * b[1], a[2] * b[0] - a[0] * b[2], a[0] * b[1] - a[1] * b[0])
+
+
+def _idot(a, b):
+    return a[0] * b[0] + a[1] * b[1] + a[2] * b[2]
+
+
+def _parallel_pos(r, v):
+    return _icross(r, v) == (0, 0, 0) and _idot(r, v) > 0
+
+
+def cone_cells(pan):
+    """One polyhedral cone per Triplet, per inner triplet of a VirtualNgon (its acceptance set is their union) and per
+    QuadRegion (the cone bounded by the four planes through consecutive corners in `order`: the set of directions whose ray
+    meets the bilinear patch; a surrogate, the model's quad acceptance depends on the root selection).
+    -> list of dicts {region, kind, keys (exact float triples), verts (int), chans, normals (int) or None if degenerate}"""
+    cells = []
+    for k, r in enumerate(pan.regions):
+        kind = c05.region_kind(r)
+        if kind == "Triplet":
+            tris = [("Triplet", np.asarray(r.positions, dtype=float), [int(c) for c in r.output_channels])]
+        elif kind == "VirtualNgon":
+            glob = [int(c) for c in r.output_channels]
+            tris = []
+            for t in r.regions:
+                ch = [glob[int(c)] if int(c) < len(glob) else ("centre", k) for c in t.output_channels]
+                tris.append(("VirtualNgon-inner", np.asarray(t.positions, dtype=float), ch))
+        else:
+            tris = []
+        for tkind, pos, ch in tris:
+            keys = [tuple(float(x) for x in v) for v in pos]
+            a, b, c = [_ivec(v) for v in pos]
+            det = _idot(a, _icross(b, c))
+            normals = None
+            if det != 0:
+                sg = 1 if det > 0 else -1
+                normals = [tuple(sg * x for x in n) for n in (_icross(b, c), _icross(c, a), _icross(a, b))]
+            cells.append({"region": k, "kind": tkind, "keys": keys, "verts": [a, b, c], "chans": ch, "normals": normals})
+        if kind == "QuadRegion":
+            pos = np.asarray(r.positions, dtype=float)
+            order = [int(o) for o in r.order]
+            keys = [tuple(float(x) for x in pos[o]) for o in order]
+            vs = [_ivec(pos[o]) for o in order]
+            normals = []
+            for i in range(4):
+                n = _icross(vs[i], vs[(i + 1) % 4])
+                d1, d2 = _idot(n, vs[(i + 2) % 4]), _idot(n, vs[(i + 3) % 4])
+                if d1 >= 0 and d2 >= 0 and (d1 > 0 or d2 > 0):
+                    normals.append(n)
+                elif d1 <= 0 and d2 <= 0 and (d1 < 0 or d2 < 0):
+                    normals.append(tuple(-x for x in n))
+                else:  # not a convex spherical quadrilateral in this order
+                    normals = None
+                    break
+            cells.append({"region": k, "kind": "QuadRegion", "keys": keys, "verts": vs,
+                          "chans": [int(r.output_channels[o]) for o in order], "normals": normals})
+    return cells
+
+
+def cone_pair(X, Y):
+    """(class, witness) for two cells: the extreme rays of the intersection cone (exact) against the common vertices.
+    class: disjoint | shared-vertex | shared-edge (the hypothesis holds) | overlap (more than a shared vertex/edge) |
+    channel-mismatch (a shared position on two different channels)"""
+    normals = X["normals"] + Y["normals"]
+    rays = []
+    for i in range(len(normals)):
+        for j in range(i + 1, len(normals)):
+            r = _icross(normals[i], normals[j])
+            if r == (0, 0, 0):
+                continue
+            for rr in (r, tuple(-x for x in r)):
+                if all(_idot(n, rr) >= 0 for n in normals) and not any(_parallel_pos(rr, u) for u in rays):
+                    rays.append(rr)
+    common = [(v, X["chans"][i], Y["chans"][Y["keys"].index(X["keys"][i])])
+              for i, v in enumerate(X["verts"]) if X["keys"][i] in Y["keys"]]
+    extra = [r for r in rays if not any(_parallel_pos(r, v) for v, _, _ in common)]
+    if extra or len(rays) > 2:
+        w = np.zeros(3)
+        for r in rays:
+            f = np.array([float(x) for x in r])
+            w += f / np.linalg.norm(f)
+        fr = [c05.unit([float(x) for x in r]).tolist() for r in rays]
+        return "overlap", {"inside": c05.unit(w).tolist() if np.linalg.norm(w) > 0 else None, "extreme_rays": fr}
+    if any(cx != cy for _, cx, cy in common):
+        return "channel-mismatch", None
+    return ("disjoint", "shared-vertex", "shared-edge")[len(rays)], None
+
+
+def cone_report(pan):
+    """All pairs of cells of different regions, and of the inner triplets of one n-gon."""
+    cells = cone_cells(pan)
+    counts, overlaps = {}, []
+    lay = pan.name
+    usable = [c for c in cells if c["normals"] is not None]
+    for c in cells:
+        if c["normals"] is None:
+            key = "cone-pairs|%s|cell-without-cone (singular triplet / non-convex quad order)|%s" % (lay, c["kind"])
+            counts[key] = counts.get(key, 0) + 1
+    tri_ok = True
+    for i in range(len(usable)):
+        for j in range(i + 1, len(usable)):
+            X, Y = usable[i], usable[j]
+            if X["region"] == Y["region"] and X["kind"] != "VirtualNgon-inner":
+                continue
+            cls, wit = cone_pair(X, Y)
+            kinds = "~".join(sorted([X["kind"], Y["kind"]]))
+            for key in ("cone-pairs|%s|%s" % (lay, cls), "cone-pairs|all nominal layouts|%s|%s" % (kinds, cls)):
+                counts[key] = counts.get(key, 0) + 1
+            if cls in ("overlap", "channel-mismatch"):
+                if kinds == "Triplet~Triplet":
+                    tri_ok = False
+                overlaps.append({"regions": [X["region"], Y["region"]], "kinds": [X["kind"], Y["kind"]], "class": cls,
+                                 "vertices_a": [list(k) for k in X["keys"]], "vertices_b": [list(k) for k in Y["keys"]],
+                                 "witness_direction": (wit or {}).get("inside"), "overlap_extreme_rays": (wit or {}).get("extreme_rays")})
+    ntri = sum(1 for c in usable if c["kind"] == "Triplet")
+    if ntri >= 2:
+        key = "cone-pairs|%s|MeetInSharedFace on every pair of Triplet regions: %s" % (lay, "holds" if tri_ok else "FAILS")
+        counts[key] = 1
+    return {"counts": counts, "overlaps": overlaps}
+
+
+def cone_directed(pan, rep, hits, counts):
+    """An overlap is only a finding if the gains actually jump there: tag the jumps already found between the two regions
+    and run the bisection search on short paths through a direction inside the overlap."""
+    calls = 0
+    for ov in rep["overlaps"][:4]:
+        found = False
+        for h in hits:
+            d = h.get("detail", {})
+            pair = {(d.get("accepting_region_a") or [None])[0], (d.get("accepting_region_b") or [None])[0]}
+            if pair == set(ov["regions"]):
+                h["tags"].append("cone-overlap")
+                h["detail"]["cone_overlap"] = ov
+                found = True
+        if ov["witness_direction"] is not None and not found:
+            q = np.array(ov["witness_direction"])
+            e1, e2 = tangent_basis(q)
+            paths = []
+            for phi in (0.3, 0.3 + math.pi / 3, 0.3 + 2 * math.pi / 3):  # long paths through the inside of the overlap
+                paths.append((Path(q, math.cos(phi) * e1 + math.sin(phi) * e2), 1.0, 64))
+            rays = [np.array(r) for r in ov["overlap_extreme_rays"] or []]
+            for i in range(len(rays)):  # short paths across every boundary arc of the overlap
+                for j in range(i + 1, len(rays)):
+                    m = rays[i] + rays[j]
+                    if np.linalg.norm(m) > 1e-6:
+                        paths.append((Path(c05.unit(m), q), 1e-2, 16))
+            for path, h0, n in paths:
+                n0 = len(hits)
+                calls += scan(pan, path, local_ts(h0, n), 4, hits, counts, "cone-overlap", "~".join(ov["kinds"]))
+                for h in hits[n0:]:
+                    h["tags"].append("cone-overlap")
+                    h["detail"]["cone_overlap"] = ov
+                    found = True
+                if found:
+                    break
+        key = "cone-pairs|%s|overlap %s" % (pan.name, "with a gain jump (reported)" if found else "without any gain jump found (not reported)")
+        counts[key] = counts.get(key, 0) + 1
+    return calls
 
 
 THEOREMS = (
@@ -344,6 +647,22 @@ THEOREMS = (
     "ngon_candidate_on_edge",
     "ngon_on_edge",
     "quad_two_valued_witness",
+    # the topological half (pasting along the first-accept loop; Proofs/C12Paste.lean + Props/C12.lean)
+    "firstAccept_eq_of_agree",
+    "firstAccept_continuousOn",
+    "firstAccept_jump_bound",
+    "panner_continuousOn_of_regions",
+    "panner_jump_bound_of_regions",
+    "triplet_accept_isClosed",
+    "triplet_accept_isClosed_code",
+    "ngon_accept_isClosed",
+    "quad_accept_isOpen_of_roots",
+    "tripletPannerE_eps",
+    "shared_face_agreement",
+    "panner_continuousOn_triplets_partial",
+    "triplet_sliver_bound_general",
+    "triplet_sliver_bound",
+    "two_triplet_panner_jump_bound",
     "C12_partial",
 )
 
@@ -354,8 +673,19 @@ class C12(Spec):
     props_module = "Earverif.Props.C12"
     theorems = tuple("Earverif.PointSource." + t for t in THEOREMS)
     trusted_base = c05.C05.trusted_base + (
-        "continuity theorems are piecewise (per region handler / wrapper) over the reals; the composed panner is continuous "
-        "only up to the 1e-11 acceptance slack and only if the regions cover the sphere: both are searched, not proved",
+        "continuity theorems are over the reals: piecewise (per region handler / wrapper), the pasting theorem for the first-accept "
+        "loop (firstAccept_continuousOn, panner_continuousOn_of_regions) and its instance for an all-triplet panner in the "
+        "idealisation 'acceptance slack 0' (panner_continuousOn_triplets_partial); with the code's slack -1e-11 neighbouring "
+        "triplets differ by at most C*1e-11 on the overlap (triplet_sliver_bound), i.e. the code's function is continuous only up to "
+        "jumps of that order (firstAccept_jump_bound, panner_jump_bound_of_regions; end to end only for a panner of two edge-sharing "
+        "triplets: two_triplet_panner_jump_bound); that the regions cover the sphere, the pairwise C*1e-11 agreement for every pair "
+        "of a whole layout, and quads / n-gons inside the pasted panner, are searched, not proved",
+        "the combinatorial hypothesis of panner_continuousOn_triplets_partial (MeetInSharedFace: the slack-0 cones of two regions "
+        "meet only in a shared vertex / edge, shared positions on the same channel) is CHECKED, not proved: on every run, for the "
+        "ten nominal layouts, in exact integer arithmetic on the binary64 vertex coordinates of the real configured regions "
+        "(cone_report: triplets, the inner triplets of every n-gon, and for quads the cone bounded by the planes through "
+        "consecutive corners); results are in the evidence counts 'cone-pairs|...'; an overlap is reported (tag cone-overlap) only "
+        "together with an actual gain jump found by the bisection search through the overlap",
     )
     assumptions = (
         "layouts: the ten nominal layouts, a fixed catalogue of admissible symmetric real layouts, the fixed catalogue of "
@@ -364,6 +694,15 @@ class C12(Spec):
         "real_catalogue, boundary_catalogue, corner_catalogue; same admissibility rules as C05)",
         "structural check on every configured panner: the vertex order of every QuadRegion / VirtualNgon (real ngon_vertex_order) "
         "must be a simple polygon and equal the harness's own order by angle around the centre",
+        "disagreement-guided search: every (layout, region, direction) on which the Lean model and the real code disagree in the "
+        "correspondence is kept, and the bisection search is run on short great circles (half-lengths 0.3, 0.03, 1e-3 rad, three "
+        "tangent directions) THROUGH those directions, on the disagreeing layout and on the fixed-catalogue layouts of the same "
+        "BS.2051 name; no-real-root predicate (every run; 500 / 3000 (deep) / 6000 (thorough) uniform directions per QuadRegion of "
+        "every layout inside the quantifier): at directions where one of the quad's pan quadratics has a clearly negative "
+        "discriminant (harness's own coefficients) the real quad must give no answer; an answer is not a hit by itself, it guides "
+        "the bisection search through that direction; a jump whose accepting quad used a pan value that is not a real root of its "
+        "own quadratic is tagged quad-pan-value-not-a-real-root and is NOT attributed to the two recorded BS.2127 quad findings "
+        "(which are about real roots)",
         "a jump is a change of some gain larger than %g + %g*L*angle between two directions %g rad apart, L = largest "
         "|dg|/angle seen on the same path at angles >= %g (a steep but continuous change does not alarm)" % (JUMP_ABS, L_SAFETY, FINAL_ANGLE, L_MIN_ANGLE),
     )
@@ -374,25 +713,71 @@ class C12(Spec):
     )
 
     def correspond(self, ctx):
-        # the model/code tie is C05's: re-run a reduced version of it here so that C12 never reports on a stale tie
+        # the model/code tie is C05's: re-run a reduced version of it here so that C12 never reports on a stale tie.
+        # Every (layout, region, direction) on which model and code disagree is kept: the search is then guided through them.
         sub = c05.SPEC
+        self._disagreements = []
+        orig = ctx.disagree
+
+        def recording_disagree(what, inp, model_out, impl_out):
+            try:
+                if isinstance(inp, dict) and isinstance(inp.get("layout"), dict) and inp.get("direction") is not None:
+                    self._disagreements.append({"what": what, "layout": inp["layout"], "region": inp.get("region"),
+                                                "direction": [float(x) for x in inp["direction"]]})
+            except Exception:
+                pass
+            return orig(what, inp, model_out, impl_out)
+
         try:
+            ctx.disagree = recording_disagree
             sub._search = lambda *a, **k: None
             c05.C05.correspond(sub, ctx)
         finally:
             del sub._search
+            del ctx.disagree
+
+    _disagreements = ()
 
     def extract(self, ctx):
         c05.SPEC.extract(ctx)
 
-    def _run(self, ctx, n_local, n_circles):
+    def _guided_tasks(self, ctx):
+        """Tasks for the disagreement-guided search: paths through every direction on which model and code disagreed, on the
+        disagreeing layout itself and on the fixed-catalogue layouts of the same BS.2051 layout name."""
+        by_layout, by_name = {}, {}
+        for d in self._disagreements:
+            lay = d["layout"]
+            lid, name, real = lay.get("id"), lay.get("layout"), lay.get("real_positions")
+            if name not in c05.LAYOUT_NAMES:
+                continue
+            ent = by_layout.setdefault(lid, (name, real, []))
+            key = tuple(round(x, 9) for x in d["direction"])
+            if len(ent[2]) < 6 and key not in [tuple(round(x, 9) for x in q) for _, q in ent[2]]:
+                ent[2].append((d["region"], d["direction"]))
+            dirs = by_name.setdefault(name, [])
+            if len(dirs) < 6 and key not in [tuple(round(x, 9) for x in q) for _, q in dirs]:
+                dirs.append((None, d["direction"]))
+        tasks = []
+        for lid, (name, real, dirs) in list(by_layout.items())[:12]:
+            tasks.append((lid, name, real, "%s/%d/guided/%s" % (ctx.tier, ctx.seed, lid), dirs, None))
+        csym, _ = c05.corner_catalogue()
+        for name, dirs in by_name.items():
+            cat = [(lid, n, real) for lid, n, real in c05.real_catalogue() if n == name]
+            cat += [(lid, n, real) for lid, n, real, always in c05.boundary_catalogue() if n == name and always][:4]
+            sym = [c for c in csym if c[1] == name]
+            cat += ctx.rng.sample(sym, min(8 if ctx.quick else len(sym), len(sym)))
+            for lid, n, real in cat:
+                tasks.append((lid, n, real, "%s/%d/guided/%s" % (ctx.tier, ctx.seed, lid), dirs, None))
+        return tasks
+
+    def _run(self, ctx, n_local, n_circles, n_disc):
         tasks = []
         for name in c05.LAYOUT_NAMES:
-            tasks.append((name, name, None, "%s/%d/%s/%d" % (ctx.tier, ctx.seed, name, ctx.rng.randrange(1 << 30)), n_local, n_circles))
+            tasks.append((name, name, None, "%s/%d/%s/%d" % (ctx.tier, ctx.seed, name, ctx.rng.randrange(1 << 30)), n_local, n_circles, None))
         for lid, name, real in c05.real_catalogue():
-            tasks.append((lid, name, real, "%s/%d/%s/%d" % (ctx.tier, ctx.seed, lid, ctx.rng.randrange(1 << 30)), n_local // 2, max(4, n_circles // 2)))
+            tasks.append((lid, name, real, "%s/%d/%s/%d" % (ctx.tier, ctx.seed, lid, ctx.rng.randrange(1 << 30)), n_local // 2, max(4, n_circles // 2), None))
         for lid, name, real in c05.boundary_for_run(ctx, 12 if ctx.quick else None):
-            tasks.append((lid, name, real, "%s/%d/%s/%d" % (ctx.tier, ctx.seed, lid, ctx.rng.randrange(1 << 30)), max(40, n_local // 3), max(3, n_circles // 3)))
+            tasks.append((lid, name, real, "%s/%d/%s/%d" % (ctx.tier, ctx.seed, lid, ctx.rng.randrange(1 << 30)), max(40, n_local // 3), max(3, n_circles // 3), None))
         # corner layouts (fixed seed): structural check on all, path search on a seeded sample (all when thorough)
         csym, casym = c05.corner_catalogue()
         full = None if not ctx.quick else {c[0] for c in ctx.rng.sample(csym, min(6, len(csym))) + ctx.rng.sample(casym, min(10, len(casym)))}
@@ -410,12 +795,20 @@ class C12(Spec):
                 div = 3 if ctx.quick else 8
                 tasks.append((lid, name, real, "%s/%d/%s" % (ctx.tier, ctx.seed, lid), max(40, n_local // div) if on else (-1 if tag is None else 0),
                               max(3, n_circles // div) if on else 0, (tag + lid) if tag else None))
+        # every layout inside the quantifier also gets the no-real-root predicate on its quads (n_disc directions per quad)
+        tasks = [t + (n_disc,) for t in tasks]
+        results = c05.run_pool(tasks, _task)
+        guided = self._guided_tasks(ctx) if self._disagreements else []
+        if guided:
+            ctx.count("guided|layouts searched through model/code disagreement directions", len(guided))
+            ctx.count("guided|disagreement directions collected", len(self._disagreements))
+            results = list(results) + list(c05.run_pool(guided, _guided_task))
         mx_d, mx_L = 0.0, 0.0
-        for lid, calls, counts, hits, samples in c05.run_pool(tasks, _task):
+        for lid, calls, counts, hits, samples in results:
             mx_d = max(mx_d, counts.pop("max-final-delta", 0.0))
             mx_L = max(mx_L, counts.pop("max-L", 0.0))
             for k, v in counts.items():
-                ctx.count("paths|" + k, v)
+                ctx.count(k if k.startswith(("cone-pairs|", "no-real-root|")) else "paths|" + k, v)
             ctx.cov["evaluations"] += calls
             ctx.count("handle-calls|" + lid.split("#")[0], calls)
             for s in samples:
@@ -426,11 +819,11 @@ class C12(Spec):
 
     def search(self, ctx, deep):
         if ctx.quick and not deep:
-            self._run(ctx, n_local=90, n_circles=7)
+            self._run(ctx, n_local=90, n_circles=7, n_disc=500)
         elif ctx.quick:
-            self._run(ctx, n_local=600, n_circles=30)
+            self._run(ctx, n_local=600, n_circles=30, n_disc=3000)
         else:
-            self._run(ctx, n_local=4200, n_circles=120)
+            self._run(ctx, n_local=4200, n_circles=120, n_disc=6000)
 
 
 SPEC = C12()
@@ -442,13 +835,33 @@ REGISTRY = dict(
     "determined and two adjacent triplets return exactly the same pair with the third gain 0; quad_on_edge, "
     "quad_edge_agreement, quad_edge_agreement': given the roots, the bilinear quad returns the same pair on each of its four "
     "edges when its velocity vector is parallel to the direction; ngon_candidate_on_edge, ngon_on_edge: a virtual n-gon "
-    "returns the same pair on its outer edges when the earlier inner triplets reject; conjunction C12_partial). "
-    "NOT proved (searched): continuity of the composed panner everywhere, which additionally needs the regions to cover the "
-    "sphere and a treatment of the 1e-11 acceptance slack, the unconditional n-gon/quad versions of edge agreement (root selection of np.roots, order of the inner triplets) "
-    "and continuity of the n-gon handler.",
-    note="Model, driver and correspondence are C05's (re-run here). Search: great circles and meridians through every region "
-    "edge, vertex, pole and loudspeaker + full circles, bisected to 1e-9 rad; jump threshold 1e-6 + 4*L*angle.",
-    technique="Lean 4 continuity/uniqueness proofs over the reals on the scalar-polymorphic model + differential correspondence "
+    "returns the same pair on its outer edges when the earlier inner triplets reject). "
+    "Pasting (topological half): firstAccept_eq_of_agree, firstAccept_continuousOn, panner_continuousOn_of_regions: for finitely "
+    "many regions whose acceptance sets are closed in the set of directions, with handlers continuous on them and agreeing "
+    "pairwise on the overlaps, the first-accept loop of PointSourcePanner.handle is continuous on the union and equals any "
+    "accepting region's value; triplet_accept_isClosed, triplet_accept_isClosed_code, ngon_accept_isClosed: the triplet / n-gon "
+    "acceptance sets are closed (quad: only quad_accept_isOpen_of_roots, closedness depends on the root selection); "
+    "panner_continuousOn_triplets_partial (+ shared_face_agreement, tripletPannerE_eps): an all-triplet panner in the "
+    "idealisation 'acceptance slack 0' is continuous on the union of its cones when any two cones meet only in a shared "
+    "vertex/edge (that combinatorial hypothesis is checked in exact arithmetic on the real configured nominal panners on every "
+    "run); triplet_sliver_bound(_general): with the code's slack 1e-11 two edge-sharing triplets differ by at most C*1e-11 where "
+    "both accept, C explicit in the basis; firstAccept_jump_bound, panner_jump_bound_of_regions: regions agreeing only up to eta on "
+    "the overlaps give a first-accept function / model panner whose jumps are bounded by eta; two_triplet_panner_jump_bound: end "
+    "to end for the code's threshold, the model's PointSourcePanner.handle on two edge-sharing triplets is continuous up to jumps "
+    "of C*1e-11 on every channel; conjunction C12_partial. "
+    "NOT proved (searched): that the regions cover the sphere; the global 'continuous up to C*1e-11' statement for a whole "
+    "layout's panner with the code's slack (reduced by panner_jump_bound_of_regions to pairwise eta-agreement, which is proved "
+    "only for edge-sharing triplets in the arrangement (u,v,w)/(u,v,w'), not for row permutations or the slivers around a vertex "
+    "shared by non-adjacent triplets); quads and n-gons inside the pasted panner (closedness "
+    "of the quad acceptance set, unconditional n-gon/quad edge agreement: root selection of np.roots, order of the inner "
+    "triplets; continuity of the n-gon handler).",
+    note="Model, driver and correspondence are C05's (re-run here). Table-level: exact cone-overlap check of every pair of regions "
+    "of the ten nominal configured panners (hypothesis of the pasting instance). Search: great circles and meridians through "
+    "every region edge, vertex, pole and loudspeaker + full circles, bisected to 1e-9 rad; jump threshold 1e-6 + 4*L*angle; "
+    "guided by (a) the directions on which model and code disagree in the correspondence and (b) directions at which a quad "
+    "answers although its pan quadratic has no real root (sampled in proportion to the area of the negative-discriminant set).",
+    technique="Lean 4 continuity/uniqueness/pasting proofs over the reals (Mathlib topology) on the scalar-polymorphic model + exact "
+    "integer check of the pasting theorem's combinatorial hypothesis on the real regions + differential correspondence "
     "+ bisection search for gain jumps on the real panner",
     design_ref="DESIGN.md section 4, C12",
 )
